@@ -2,6 +2,7 @@ import Driver.Basic
 import Driver.Store
 import Driver.Trav
 import Driver.Dec
+import Driver.Parse
 /-!
 Line-protocol driver: evaluates the Lean model's executable definitions on requests read from stdin,
 one response per line. Built as a `lean_exe` (imports nothing outside core/Std).
@@ -19,6 +20,9 @@ def respond (line : String) : String :=
   | some r => r
   | none =>
   match respondDec ws with
+  | some r => r
+  | none =>
+  match respondParse ws with
   | some r => r
   | none => "bad-request"
 
